@@ -17,6 +17,29 @@ SEEDED = os.path.join(VERIF, "seeded")
 # seeds that at their first evaluation were not reported by the check of their own
 # property (the rule named here was added or widened because of them)
 FIRST_MISSED = {
+    "C14-14": "no check reported it -> CHUNK-2 offset-initial looks through a merge in front of the loop (back edges by dominance)",
+    "C16-14": "no check reported it -> FLUSH: the record-layer wrappers of NoiseConn delegate to the Machine on every path",
+    "C04-14": "no check reported it -> PUBLISH: GetRequestMetadata decodes the auth payload published now",
+    "C09-14": "own property silent (reported by C06 KA-6) -> C09 imports C06",
+    "C01-15": "own property silent (reported by C10 GBNHS-1) -> C01 imports C10",
+    "C09-15": "no check reported it -> LOCKBAL for package gbn (C18, imported)",
+    "C06-16": "no check reported it -> LOCKBAL for package gbn (C18, imported)",
+    "C09-16": "no check reported it (CHUNK-2 accepts '<' for C14) -> WIN-5 chunk-minimal in C09",
+    "C16-15": "own property silent (reported by C15 TRUNC, C08 PAIR) -> RFULL: ReadAtLeast is exact",
+    "C12-16": "no check reported it -> ORDER: Server.Close cancels on every path",
+    "C11-16": "no check reported it -> LIFE: a failed gbn handshake closes the attempt",
+    "C04-15": "no check reported it -> PUBLISH ruleConnDataGuard (fields under ConnData.mu)",
+    "C04-16": "no check reported it -> PUBLISH ruleConnDataGuard (no callback under ConnData.mu)",
+    "C02-15": "no check reported it -> RDC-2: Read's check/receive/store is one critical section",
+    "C03-15": "no check reported it -> HSK-ERR: the new Machine is installed before the handshake runs",
+    "C07-15": "no check reported it -> NILWIRE",
+    "C10-15": "own property silent (reported by C07 ASSERT) -> GBNHS-1: N is read from the SYN received last",
+    "C17-16": "own property silent (side reason) -> CODEC-SIB: the mnemonic encoder is total over the 11-bit groups",
+    "C03-17": "own property silent (reported by C07 ASSERT, side reason) -> HSK-SIB: mixKey input is a DH output of this handshake",
+    "C03-18": "own property silent (reported by C04/C11/C17) -> C03 shares the remote-key rule",
+    "C11-18": "no check reported it -> ORDER: a cancelled context is not handed to a later call",
+    "C12-17": "no check reported it -> EXIT: the syncer waits on the channel queue.stop() closes",
+    "C15-18": "own property silent (reported by C14 CHUNK-3) -> C15 imports C14",
     "C01-1": "own property silent (reported by C09 only) -> C01 gained WIN-5/SEQSPACE/SIZE",
     "C01-2": "own property silent (reported by C09 only) -> C01 gained WIN-5/SEQSPACE/SIZE",
     "C03-2": "no check reported it -> SECRET-WHOLE (the passphrase entropy is used whole)",
